@@ -354,11 +354,55 @@ func (g *DocGen) val(t *Ty, depth int) string {
 func GenBigDoc(r *Rng, tag string) string {
 	g := &DocGen{r: r, tag: tag, poison: 0, spare: 20, big: true}
 	g.latePoison = r.P(1, 3)
+	if strings.HasSuffix(tag, "!") {
+		g.latePoison = true
+	}
 	return g.val(tDoc, 0)
 }
 
 // bigExprs are evaluated on big documents; none of them enumerates object
 // members, so outcomes must be strictly equal.
+// BigFamilies: expressions that exercise the same internal machinery, so that
+// several clients of one run meet in it (a pooled buffer or cache is per
+// built-in function or per construct).
+var BigFamilies = []string{"sort_by", "project", "filter", "map", "join", "sort", "any"}
+
+func GenBigExprFamily(r *Rng, family string) *Expr {
+	for try := 0; try < 200; try++ {
+		e := GenBigExpr(r)
+		t := e.Text()
+		switch family {
+		case "sort_by":
+			if strings.Contains(t, "sort_by(") {
+				return e
+			}
+		case "project":
+			if strings.Contains(t, "[*]") {
+				return e
+			}
+		case "filter":
+			if strings.Contains(t, "[?") {
+				return e
+			}
+		case "map":
+			if strings.Contains(t, "map(") {
+				return e
+			}
+		case "join":
+			if strings.Contains(t, "join(") {
+				return e
+			}
+		case "sort":
+			if strings.Contains(t, "sort(") || strings.Contains(t, "reverse(") {
+				return e
+			}
+		default:
+			return e
+		}
+	}
+	return GenBigExpr(r)
+}
+
 func GenBigExpr(r *Rng) *Expr {
 	cur := &Expr{K: KCur}
 	num := func(s string) *Expr { return lit(s) }
